@@ -12,7 +12,7 @@ func C02(c *mc.Ctx) {
 	alphabet := []string{
 		"req:p1:n:0", "rc:p1:n:s", "req:p1:d:0", "req:p1:f:0", "rc:p1:d:s", "rc:p1:u:s", "rc:p1:n:f",
 		"req:p3:n:0", "req:p2:n:0", "req:p1:n:0+req:p1:n:0", "req:p1:n:0+rc:p1:n:s+xfer",
-		"call:DeleteInterchain", "call:Register", "empty",
+		"call:DeleteInterchain", "call:Register", "empty", "req:p4:n:0", "req:p4:d:0", "rc:p4:n:s",
 	}
 	depth := 4
 	if !c.Quick() {
@@ -23,7 +23,7 @@ func C02(c *mc.Ctx) {
 	runIC(c, "C02", c02Oracle, fix.Options{Audit: false}, "icmc", alphabet, depth)
 	runIC(c, "C02", c02Oracle, fix.Options{Audit: true}, "icmc-audit", alphabet, depth-1)
 	fix.Cleanup()
-	c.Set("rule", "BFS over block histories whose blocks carry IBTP requests/receipts for 3 ordered service pairs (one blacklisted, one reverse) with index = next/duplicate/future/zero/huge/unknown, mixed packing, unrelated transfers and direct calls of the interchain contract's public methods by an outsider; audit off and on; after every block receipts, both-side counters, index records and the block's delivery sets are compared with the reference model")
+	c.Set("rule", "BFS over block histories whose blocks carry IBTP requests/receipts for 4 ordered service pairs (one blacklisted, one reverse, one service sending to itself) with index = next/duplicate/future/zero/huge/unknown, mixed packing, unrelated transfers and direct calls of the interchain contract's public methods by an outsider; audit off and on; after every block receipts, both-side counters, index records and the block's delivery sets are compared with the reference model")
 	c.Assume("all proofs in this check are valid (HappyRule); proof handling is C03")
 	if c.Get("rejections_expected") == 0 || c.Get("acceptances_expected") == 0 {
 		c.HarnessError("vacuous: model never rejected / never accepted")
